@@ -95,9 +95,9 @@ Theorem pathbadger_pipelined_nonzero_seqno_refuted :
   s_read (s_run sdb0 h_pipe_spec) 3 3 = Some [(3, 1); (6, 1)] /\
   p_status (p_run pdb0 h_pipe) 2 3 = 1 /\
   p_status (p_run pdb0 (h_pipe ++ [PFinalize 2 [3]])) 3 3 = 1 /\
-  p_status (p_run pdb0 [PCommit 2 1 3 None [(3, 1); (6, 1)] [((2, 1), 2); ((2, 2), 3)];
-                        PCommit 2 1 2 None [(2, 1)] [];
-                        PCommit 3 1 3 (Some (2, 3)) [] [((2, 1), 2); ((2, 2), 3)]]) 3 3 = 1.
+  p_status (p_run pdb0 [PCommit 2 1 3 None [(3, 1); (6, 1)] [((2, 1), 2); ((2, 2), 3)] [];
+                        PCommit 2 1 2 None [(2, 1)] [] [];
+                        PCommit 3 1 3 (Some (2, 3)) [] [((2, 1), 2); ((2, 2), 3)] []]) 3 3 = 1.
 Proof. exact pathbadger_pipelined_nonzero_seqno_refuted_l. Qed.
 Print Assumptions pathbadger_pipelined_nonzero_seqno_refuted.
 
